@@ -528,6 +528,27 @@ def search(ctx, boost=False):
         s.nontrivial.add((a, b, "class"))
         if msg:
             s.violations.append(dict(what=msg, case=dict(kind="classpair", a=a, b=b, wrap=list(wrap))))
+    # class bodies, member directly behind member (no blank line, no access specifier in between): what ends the first
+    # member x how the second one starts (documented, specified, templated)
+    MLAST = ["int a;", "int a = 1, b{2};", "void m();", "void m() { int q; }", "int m() const { return 0; }", "virtual void m() = 0;",
+            "W() : a(1) {}", "~W() {}", "operator bool() const { return true; }", "explicit operator int() const;",
+            "bool operator==(const W& o) const { return true; }", "auto m() const -> int { return 1; }", "auto m() -> int;",
+            "struct In { int z; };", "struct { int z; } an;", "enum E { P, Q };", "using T = int;", "typedef int TT;",
+            "friend void ff() {}", "friend class Fr;", "static_assert(sizeof(int) == 4, \"x\");", "template <typename U> void tm(U) {}",
+            "static constexpr int k = 3;", "int bf : 3;", "using Base::operator=;"]
+    MFIRST = ["/// doc of count\nint count;", "/** doc */\nvoid after();", "//! d\nstatic int s;", "/// e\nenum E2 { R };", "/// n\nstruct N2 { int y; };",
+             "int plain;", "/// u\nusing U2 = long;", "template <typename V>\n/// late\nvoid tv(V);", "/// c\noperator long() const;", "/*! f */ int f2 : 2;",
+             "/// m\nmutable int mu;", "/// v\nvirtual void vv() const;"]
+    for i in range(ctx.scale(300, 6000)):
+        a, b = rng.choice(MLAST), rng.choice(MFIRST)
+        key = rng.choice(["struct", "class"])
+        wrap = ("class-adjacent", key + " W {\npublic:\n@A@\n@B@\n};\n")
+        s.evaluations += 1
+        s.count("class-adjacent")
+        msg = check_class_pair(a, b, wrap)
+        s.nontrivial.add((a, b, "class-adjacent"))
+        if msg:
+            s.violations.append(dict(what=msg + " (members written directly one behind the other)", case=dict(kind="classpair", a=a, b=b, wrap=list(wrap))))
     s.samples = [dict(a=gen[0], b=gen[1], context="ns")]
     return s
 
